@@ -88,6 +88,8 @@ def bound_consistency_algorithm(
     while True:
         prop_idx = pop_propagator(triggered_propagators, prop_idx)
         if prop_idx == -1:
+            prop_idx = pop_propagator(triggered_propagators, -1)
+        if prop_idx == -1:
             return PROBLEM_BOUND if is_solved(shr_domains_stack, stacks_top) else PROBLEM_UNBOUND
         statistics[STATS_IDX_PROPAGATOR_FILTER_NB] += 1
         prop_var_start = var_bounds[prop_idx, RG_START]
